@@ -21,7 +21,8 @@ GOENV = dict(os.environ, GOFLAGS="-mod=mod", GOPROXY="off", GOSUMDB="off",
 FORBIDDEN = re.compile(
     r"\b(Admitted|admit|Axiom|Axioms|Parameter|Parameters|Conjecture|Conjectures|"
     r"Admit Obligations|Unset Guard Checking|Unset Positivity Checking|Unset Universe Checking|"
-    r"bypass_check|Hypothesis|Hypotheses|Variable|Variables|Context)\b|type-in-type|impredicative-set")
+    r"bypass_check|native_compute|native_cast_no_check|Extract Constant|Extract Inductive|Extract Inlined Constant|"
+    r"Hypothesis|Hypotheses|Variable|Variables|Context)\b|type-in-type|impredicative-set")
 
 
 class BuildError(Exception):
@@ -158,29 +159,51 @@ def props_files(pid):
 
 
 def check_props_file(pid):
-    """Re-compile Props/<pid>.v (and Props/<pid>_*.v) on its own; returns (rc, output, n_obligations, axioms, closed)."""
-    rc_all, out_all, n, axioms, closed = 0, "", 0, [], 0
+    """Re-compile Props/<pid>.v (and Props/<pid>_*.v) on its own, then ask the kernel for the
+    assumptions of EVERY statement in them (theorems, lemmas, examples - whether or not the file
+    itself prints them).  Returns (rc, output, n_statements, axioms, n_closed)."""
+    rc_all, out_all, names = 0, "", []
     for rel in props_files(pid):
         path = os.path.join(COQ, rel)
         if not os.path.exists(path):
             return 1, "missing " + rel, 0, [], 0
         src = open(path).read()
-        n += len(re.findall(r"^\s*(Theorem|Lemma|Example|Corollary|Fact|Proposition)\b", src, re.M))
+        mod = "BFS.Props." + os.path.basename(rel)[:-2]
+        names += [(mod, m) for m in re.findall(r"^\s*(?:Theorem|Lemma|Example|Corollary|Fact|Proposition)\s+([A-Za-z_][\w']*)", src, re.M)]
         with Lock():
             rc, out = sh("timeout 900 coqc -q -Q theories BFS -w -notation-overridden,-deprecated-hint-without-locality %s 2>&1" % rel,
                          cwd=COQ, timeout=1000)
         rc_all = rc_all or rc
         out_all += out
-        # Print Assumptions output: "Closed under the global context" or "Axioms:\n name : type"
-        blocks = re.split(r"\n(?=Closed under the global context|Axioms:)", "\n" + out)
-        for b in blocks:
-            if b.startswith("Axioms:"):
-                for line in b.splitlines()[1:]:
-                    m = re.match(r"^([A-Za-z_][\w.']*)\s*:", line)
-                    if m:
-                        axioms.append(m.group(1))
-        closed += out.count("Closed under the global context")
-    return rc_all, out_all, n, sorted(set(axioms)), closed
+    if rc_all != 0:
+        return rc_all, out_all, len(names), [], 0
+    os.makedirs(OUT, exist_ok=True)
+    pa = os.path.join(OUT, "assumptions_%s.v" % pid)
+    with open(pa, "w") as f:
+        for mod in sorted(set(m for m, _ in names)):
+            f.write("Require Import %s.\n" % mod)
+        for mod, n in names:
+            f.write("Print Assumptions %s.%s.\n" % (mod, n))
+    with Lock():
+        rc, out = sh("timeout 900 coqc -q -Q theories BFS -w -notation-overridden,-deprecated-hint-without-locality %s 2>&1" % pa,
+                     cwd=COQ, timeout=1000)
+    for ext in (".vo", ".vok", ".vos", ".glob"):
+        try:
+            os.remove(pa[:-2] + ext)
+        except OSError:
+            pass
+    out_all += out
+    axioms = []
+    # Print Assumptions output: "Closed under the global context" or "Axioms:\n name : type"
+    blocks = re.split(r"\n(?=Closed under the global context|Axioms:)", "\n" + out)
+    for b in blocks:
+        if b.startswith("Axioms:"):
+            for line in b.splitlines()[1:]:
+                m = re.match(r"^([A-Za-z_][\w.']*)\s*:", line)
+                if m:
+                    axioms.append(m.group(1))
+    closed = out.count("Closed under the global context")
+    return (rc_all or rc), out_all, len(names), sorted(set(axioms)), closed
 
 
 def coqchk_props(pid):
